@@ -28,6 +28,8 @@ def request_set(req):
 def template(side, op):
     if op == "none":
         return "permit tcp any any"
+    if op == "ip":
+        return "permit ip any any"          # a protocol that cannot carry ports: the request cannot be honoured
     expr = {"eq": "eq 9", "range": "range 8 9"}[op]
     return f"permit tcp any {expr} any" if side == "src" else f"permit tcp any any {expr}"
 
@@ -50,7 +52,7 @@ def check_ports(arg):
         lines = cisco_acl.range_ports(line=line, platform=platform, port_nr=port_nr, port_count=count, port_range=policy, **kwargs)
     except ValueError as ex:
         # accepted only where the requested combination has no valid line under the template's operator
-        impossible = (op == "eq" and policy and has_range) or (op == "range") or (platform == "nxos" and count > 1)
+        impossible = (op == "eq" and policy and has_range) or (op in ("range", "ip")) or (platform == "nxos" and count > 1)
         if not impossible and want:
             bad("refused", f"well-formed request refused: ValueError: {ex}")
         return fails, 1
@@ -95,9 +97,12 @@ def check_ports(arg):
                     bad("platform-syntax", f"line {l!r} uses the port keyword {t!r}, which {platform} does not have")
             if policy is False and toks[i] == "range" and op != "range":
                 bad("policy", f"port_range=False but line {l!r} uses `range`")
-    if not fails and frozenset(union) != want and op == "none":
+    if op == "ip" and want:
+        bad("set", f"template {line!r} cannot carry ports, yet the request {req!r} was answered with {lines[:3]} instead of an error")
+        return fails, 1
+    if not fails and frozenset(union) != want and op in ("none", "range"):
         d1, d2 = sorted(want - union)[:5], sorted(union - want)[:5]
-        bad("set", f"generated lines denote a different port set: missing {d1}, extra {d2}; lines {lines[:4]}")
+        bad("set" if op == "none" else "set:template-with-range-operator", f"generated lines denote a different port set: missing {d1}, extra {d2}; lines {lines[:4]}")
     if op == "eq" and not fails and not frozenset(union) >= want:
         bad("set", f"requested ports missing: {sorted(want - union)[:5]}")
     return fails, 1
@@ -189,6 +194,10 @@ def main(chk):
                         if platform == "nxos" and i % 4:
                             continue
                         cases.append((r, side, op, count, policy, platform, bool(i % 2)))
+    for r in ("80", "20,30", "21-23"):
+        for platform in ("ios", "nxos"):
+            cases.append((r, "src", "ip", 1, True, platform, True))
+            cases.append((r, "dst", "range", 2, True, platform, True))
     # ports whose keyword differs between the platforms, rendered as names
     for r in ("135", "37,514", "135-136", "3949", "15001,15002", "22,135"):
         for platform in ("ios", "nxos"):
